@@ -117,14 +117,3 @@ C20_CMD_RUNS = [{
     "thorough": {"parts": 16, "deadline": 2700,
                  "bounds": "tcp <=3 tokens of 44 + 4-token lines of 10 commands (direct mode <=3); http <=4 of 26 URI tokens; csv 30 tokens x 3 holes x 11 frames"},
 }]
-
-# PRIVATE-TEST-REGISTRATION-BEGIN (removed before hand-over)
-CHECKS["C20A"] = {
-    "engine": "cmdmc", "design_ref": "5/C20", "level": "exploration",
-    "level_text": "private test registration of the cmd part of C20", "level_note": "",
-    "technique": "bounded-exhaustive enumeration with sanitizers as oracle", "rule": C20_CMD_RULE,
-    "assumptions": C20_CMD_ASSUMPTIONS, "runs": C20_CMD_RUNS,
-}
-CHECKS["C20M"] = dict(CHECKS["C20A"], runs=[dict(C20_CMD_RUNS[0],
-    quick={"parts": 4, "deadline": 150, "args": ["--only", "http", "--httplen", "1", "--budget", "2"], "bounds": "hang mutant demo"})])
-# PRIVATE-TEST-REGISTRATION-END
